@@ -327,6 +327,15 @@ def run(ctx):
     chain = [0, 1, 3, 5]
     motor_items += [(st, [(a, b), (c, d)], False) for st in MOTOR_STATES
                     for a in chain for b in chain for c in chain for d in chain]
+    # three (thorough: four) requests in a row on one object: something the object remembers
+    # about the board from request 1 must still be true after request 2 changed the board
+    reqs = [(a, b) for a in (0, 1, 2, 5) for b in (0, 1, 2, 5)]
+    motor_items += [(st, list(seq), False) for st in ((False, False, 1), (True, True, 3))
+                    for seq in itertools.product(reqs, repeat=3)]
+    if ctx.thorough:
+        few = [(1, 1), (0, 1), (0, 2), (2, 0), (0, 0), (5, 5)]
+        motor_items += [((False, False, 1), list(seq), False)
+                        for seq in itertools.product(few, repeat=4)]
     if ctx.thorough:
         motor_items += [(st, [(a, b), (c, d), (e, f)], False) for st in MOTOR_STATES[::3]
                         for a in chain for b in chain for c in chain for d in chain
@@ -351,7 +360,8 @@ def run(ctx):
                 "writes; all histories of 3 (thorough 4) writes over 22 write operations (two int32 "
                 "values at four overlapping slots, single bytes at seven slots) checked against a "
                 "model RAM after every step; motors: all 20 board motor states (installed directly and reached via "
-                "library calls) x (r1,r2) in -1..7 squared, then depth-2/3 chains; nicknames: "
+                "library calls) x (r1,r2) in -1..7 squared, then depth-2 chains and all depth-3 "
+                "(thorough: depth-4 over 6) chains over 16 requests on one object; nicknames: "
                 "20 x 20 prior/written (incl. names starting with the reply header characters); two "
                 "objects on two boards used in turn: all histories of 3 (thorough 4) steps over "
                 "2 x 8 operations that touch both, each board and each object's read-back "
